@@ -46,6 +46,7 @@ func init() {
 				ruleCheckAllLoop(c, "pkg/core/interop", "pkg/core/interop/contract", "pkg/core/interop/storage", "pkg/core/native")
 			}},
 			{"transfer-log-on-halt", "storeBlock turns notifications into transfer-log entries only behind the VMState == Halt test", ruleTransferLogOnHalt},
+			{"scopeless-loader", "a frame loaded inside the execution closure by a function that opens no rollback scope for it (no private DAO layer, no unload callback) gets flags whose upper bound contains neither WriteStates nor AllowNotify: otherwise what it writes survives when it throws and an outer frame catches", ruleScopelessLoader},
 			{"tx-commit-guard", "the per-transaction DAO layer is persisted only on the non-fault branch, it is the private layer of a context created for that transaction, and OnPersist/PostPersist persist only after a successful Exec", ruleTxCommitGuard},
 			{"unload-rollback", "the unload callback of a wrapped call persists only on commit, cuts notifications back and restores the base DAO layer on every exit; baselines are captured before the callee is loaded; the VM passes commit = no uncaught exception; ContractHasTryBlock scans every handler of every frame", ruleUnloadRollback},
 			{"exec-confinement", "in the execution closure no store targets a package-level variable or a native contract object: everything an execution writes lives in a layer that is dropped on FAULT / caught exception", ruleExecConfinement},
